@@ -125,6 +125,13 @@ class EinSum(Operation):
             self._cache = Counter(zip((id(v) for v in self.variables), self.in_lbls))
         return self._cache
 
+    def backward(self, grad, **kwargs):
+        # The cache is consumed by a single pass over the op's inputs. Rebuild it
+        # for each pass so that a pass that was aborted part-way (e.g. by
+        # InvalidBackprop raised further upstream) does not leave it depleted.
+        self._cache = None
+        super().backward(grad, **kwargs)
+
     def backward_var(self, grad, index, **kwargs):
         """
         example
